@@ -183,4 +183,114 @@ impl<S: Storage> Replica<S> {
         Ok(true)
     }
 //@end
+
+//@props C20
+//@extract src/replica.rs :: impl<S: Storage> Replica<S> :: fn all_task_data
+    pub fn all_task_data(&mut self) -> (r: Result<HashMap<Uuid, TaskData>>)
+        ensures final(self).sv() == old(self).sv(),
+            //@ob C20 C18 Replica::all_task_data.one-TaskData-per-stored-task
+            r matches Ok(m) ==> all_data(m@, old(self).sv().tasks),
+{
+        let mut res = HashMap::new();
+        let ghost t0 = self.taskdb.storage.view().tasks;
+        for (uuid, tm) in it_uuid: drain_all(&mut self.taskdb.all_tasks()?)
+            invariant
+                tasks_listed(it_uuid.seq(), t0), t0 == old(self).sv().tasks, self.sv() == old(self).sv(),
+                data_upto(res@, it_uuid.seq(), it_uuid.index() as int, t0),
+        {
+            let ghost k = it_uuid.index() as int;
+            let ghost r0 = res@;
+            res.insert(uuid, TaskData::new(uuid, tm));
+            proof {
+                assert(it_uuid.seq()[k].0 == uuid);
+                assert forall|u: Uuid| res@.dom().contains(u) <==> exists|j: int| 0 <= j < k + 1 && #[trigger] it_uuid.seq()[j].0 == u by {
+                    if data_has(r0, u) { let j = choose|j: int| 0 <= j < k && #[trigger] it_uuid.seq()[j].0 == u; assert(it_uuid.seq()[j].0 == u); }
+                }
+            }
+        }
+        Ok(res)
+    }
+//@end
+
+//@extract src/replica.rs :: impl<S: Storage> Replica<S> :: fn expire_tasks | drain=drain_hashmap
+    #[verifier::loop_isolation(false)]
+    pub fn expire_tasks(&mut self) -> (r: Result<()>)
+        ensures
+            //@ob C20 Replica::expire_tasks.purges-exactly-the-tasks-deleted-more-than-180-days-ago,-as-ordinary-Delete-operations-committed-in-one-batch
+            r is Ok ==> exists|ops: Seq<Operation>| #[trigger] expire_sel(old(self).sv().tasks, expiry_cut(), ops)
+                && (ops.len() == 0 ==> final(self).sv() == old(self).sv())
+                && (ops.len() > 0 ==> exists|added: Seq<Uuid>| #[trigger] commit_final_p(bp_pred(), old(self).sv(), ops, final(self).sv(), added)),
+            //@ob C20 C05 Replica::expire_tasks.all-or-nothing
+            r is Err ==> final(self).sv() == old(self).sv(),
+{
+        let six_mos_ago = Utc::now() - Duration::days(180);
+        let mut ops = Operations::new();
+        let deleted = Status::Deleted.to_taskmap();
+        let ghost t0 = self.taskdb.storage.view().tasks;
+        let ghost cut = expiry_cut();
+        {
+            for it1_x in it_it1_x: drain_hashmap(&mut self.all_task_data()?)
+                invariant
+                    self.sv() == old(self).sv(),
+                    drained_data(it_it1_x.seq(), t0),
+                    expire_upto(it_it1_x.seq(), it_it1_x.index() as int, t0, cut, ops@),
+            {
+                let ghost k = it_it1_x.index() as int;
+                let ghost ops0 = ops@;
+                let ghost tm = it1_x.1.taskmap@;
+                proof { assert(it_it1_x.seq()[k] == it1_x); assert(tm == t0[it1_x.0] && it1_x.1.uuid == it1_x.0); }
+                let (_, t) = &it1_x;
+                let it1_c0 = t.get("status") == Some(deleted);
+                if it1_c0 {
+                    let (_, t) = &it1_x;
+                    let it1_c1 = {
+                        match t.get("modified") {
+                            Some(m) => {
+                                match m.parse() {
+                                    Ok(time_sec) => {
+                                        match DateTime::from_timestamp(time_sec, 0) {
+                                            Some(dt) => dt < six_mos_ago,
+                                            None => false,
+                                        }
+                                    },
+                                    Err(_) => false,
+                                }
+                            },
+                            None => false,
+                        }
+                    };
+                    proof {
+                        // the selection made by the code, step by step: `modified` present, an integer, inside the calendar, before the cut
+                        if tm.dom().contains("modified"@) {
+                            let ps = parse_spec::<i64>(tm["modified"@]);
+                            if ps is Some { let secs = ps->Some_0; assert(it1_c1 == (CHRONO_MIN_SECS <= secs <= CHRONO_MAX_SECS && secs * 1_000_000_000 < cut)); }
+                            else { assert(!it1_c1); }
+                        } else { assert(!it1_c1); }
+                        assert(it1_c1 == expired(tm, cut)) by { reveal(expired); }
+                    }
+                    if it1_c1 {
+                        let (_, mut t) = it1_x;
+                        t.delete(&mut ops);
+                        proof {
+                            assert(ops@ =~= ops0.push(ops@.last()));
+                            lemma_expire_step(it_it1_x.seq(), k, t0, cut, ops0, ops@.last());
+                        }
+                    }
+                    else {
+                        proof { lemma_expire_skip(it_it1_x.seq(), k, t0, cut, ops0); }
+                    }
+                }
+                else {
+                    proof { assert(!expired(tm, cut)) by { reveal(expired); } lemma_expire_skip(it_it1_x.seq(), k, t0, cut, ops0); }
+                }
+            }
+        };
+        proof {
+            assert(exists|d: Seq<(Uuid, TaskData)>| #[trigger] expire_upto(d, d.len() as int, t0, cut, ops@) && drained_data(d, t0));
+            let d = choose|d: Seq<(Uuid, TaskData)>| #[trigger] expire_upto(d, d.len() as int, t0, cut, ops@) && drained_data(d, t0);
+            lemma_expire_done(d, t0, cut, ops@);
+        }
+        self.commit_operations(ops)
+    }
+//@end
 }
